@@ -34,6 +34,9 @@ POOL = [
     # the two zeros (equal as numbers, different bit patterns), alone and inside containers
     ("(-0.0)", "float", -0.0, "Float"), ("(0.0 * -1.0)", "float", -0.0, "Float"), ("R.new(-0.0)", "float", -0.0, "R"),
     ("[0.0]", "none", None, ""), ("[-0.0]", "none", None, ""), ("{a: 0.0}", "none", None, ""), ("{a: -0.0}", "none", None, ""),
+    # infinities and NaN are reachable by overflow
+    ("(1.0e308 * 10.0)", "float", float("inf"), "Float"), ("(-1.0e308 * 10.0)", "float", float("-inf"), "Float"),
+    ("(1.0e308 * 10.0 - 1.0e308 * 10.0)", "float", float("nan"), "Float"),
     # strings that are not valid UTF-8 (bitwise not of ASCII): distinct bytes, same text after lossy decoding
     ('(/~"a")', "str", "\x9e", "Str"), ('(/~"b")', "str", "\x9d", "Str"), ('(/~"ab")', "str", "\x9e\x9d", "Str"), ('(/~"a" + "z")', "str", "\x9ez", "Str"),
     # maps built from several ** operands that share keys, next to maps with the same number of keys
@@ -62,7 +65,7 @@ def run():
         reqs.append({"id": f"v.{i}", "src": PRELUDE + sx})
         for j, (sy, fy, vy, py) in enumerate(pool):
             for name, op in OPS:
-                if name in ("lt", "le", "gt", "ge", "cmp") and not (fx != "none" and fx == fy):
+                if name in ("lt", "le", "gt", "ge", "cmp") and not ((fx != "none" and fx == fy) or {fx, fy} == {"int", "float"}):
                     continue
                 reqs.append({"id": f"{name}.{i}.{j}", "src": PRELUDE + f"x := {sx}; y := {sy}; x {op} y"})
             if fx != "none" and fx == fy:
@@ -89,17 +92,17 @@ def run():
     for i, c in enumerate(canon):
         if not c.startswith("val:"):
             raise pvlib.Broken(f"pool value {pool[i][0]} does not evaluate: {c}")
-    vals = [{"fam": p[1], "nan": False} for p in pool]
+    vals = [{"fam": p[1], "nan": isinstance(p[2], float) and p[2] != p[2]} for p in pool]
     rows = []
     for i in range(n):
         for j in range(n):
-            same = pool[i][1] != "none" and pool[i][1] == pool[j][1]
+            same = (pool[i][1] != "none" and pool[i][1] == pool[j][1]) or {pool[i][1], pool[j][1]} == {"int", "float"}
             row = {"eq": code_bool(end(f"eq.{i}.{j}")), "ne": code_bool(end(f"ne.{i}.{j}"))}
             for name in ("lt", "le", "gt", "ge"):
                 row[name] = code_bool(end(f"{name}.{i}.{j}")) if same else "E"
             row["cmp"] = code_cmp(end(f"cmp.{i}.{j}")) if same else "E"
             for name in ("mx", "mn"):
-                if same:
+                if same and pool[i][1] == pool[j][1]:
                     r = end(f"{name}.{i}.{j}")
                     isx, isy = r == canon[i], r == canon[j]
                     row[name] = "xy" if isx and isy else "x" if isx else "y" if isy else "?"
@@ -120,9 +123,14 @@ def run():
     for f in fails:
         law, x, y, z = f["law"], f["x"] - 1, f["y"] - 1, f["z"] - 1
         px, py = pool[x], pool[y]
-        if law in ("trichotomy", "unions", "cmp-agrees") and px[1] == py[1] and px[2] == py[2] and px[3] != py[3] and \
+        isnan = lambda q: isinstance(q[2], float) and q[2] != q[2]
+        if isnan(px) or isnan(py) or (z >= 0 and isnan(pool[z])):
+            sig = "C18:nan-ordering"
+        elif law in ("trichotomy", "unions", "cmp-agrees") and px[1] == py[1] and px[2] == py[2] and px[3] != py[3] and \
                 rows[x * n + y]["cmp"] == "0" and rows[x * n + y]["eq"] == "F":
             sig = "C18:trichotomy:equal-value-different-proto"
+        elif law == "mixed-trichotomy" and px[2] == py[2] and rows[x * n + y]["cmp"] == "0" and rows[x * n + y]["eq"] == "F":
+            sig = "C18:trichotomy:float-vs-int-equal-value"
         elif law == "transitive" and any(pool[a][2] == pool[b][2] and pool[a][3] != pool[b][3] for a, b in ((x, y), (y, z), (x, z))):
             sig = "C18:trichotomy:equal-value-different-proto"
         else:
